@@ -221,11 +221,17 @@ func c15Classify(d string) string {
 }
 
 func c15RunOps(v asmVariant, capacity int, ops []asmOp) string {
-	e, m, d := runHistory(v, capacity, ops)
-	if d != "" {
-		return d
+	// the item list the listings are walked against is what the real emitter itself did, call by call
+	// (accepted or not, which bytes, at which offset): acceptance, encoding and capacity are not C15's
+	e, m, refused := runObservedRefusals(v, capacity, ops)
+	if refused != 0 {
+		// "a program that fit in the buffer": a call refused here but accepted with ample room was refused
+		// for lack of space (C19's subject); the listings of such a history are not judged
+		if _, _, roomy := runObservedRefusals(v, capacity+1024, ops); roomy != refused {
+			return ""
+		}
 	}
-	if d = checkListings(e, m, "before Finalize"); d != "" {
+	if d := checkListings(e, m, "before Finalize"); d != "" {
 		return d
 	}
 	_ = e.Finalize()
@@ -254,7 +260,7 @@ func c15Ops(names []string) ([]asmOp, error) {
 		var k int
 		if _, err := fmt.Sscanf(n, "EmitBytes(%d)", &k); err == nil {
 			kk := k
-			out = append(out, asmOp{n, func(e *asm.Emitter) { e.EmitBytes(dataBlock(kk)) }, func(m *asmModel) bool { return !m.emit(itData, dataBlock(kk), -1) }})
+			out = append(out, asmOp{name: n, real: func(e *asm.Emitter) { e.EmitBytes(dataBlock(kk)) }, model: func(m *asmModel) bool { return !m.emit(itData, dataBlock(kk), -1) }, kind: itData})
 			continue
 		}
 		o, err := opsByName([]string{n})
